@@ -77,9 +77,11 @@ class C04(Prop):
             inner = i[1:-1]
             want_prev = "~" if inner not in d else None
             if want_prev == "~" and o["prev"] != "~":
-                fails.append({"msg": "frame %d: an entry was read for a header the file does not hold" % idx})
+                fails.append({"msg": "frame %d: an entry was read for a header the file does not hold" % idx, "tie": True})
             if inner in d and (o["prev"] == "~" or unhx(o["prev"].split("@")[0]) != d[inner].rstrip(b"\n") and unhx(o["prev"].split("@")[0]) != d[inner]):
-                fails.append({"msg": "frame %d: reading %r returned %s, the entry holds %r" % (idx, i, o["prev"], d[inner])})
+                # (what the library's internal reader RETURNS - escaped or already unescaped - is its own business: a complaint about
+                # it is a broken tie with the model's get_prev, not an input on which a Match* call misbehaves)
+                fails.append({"msg": "frame %d: reading %r returned %s, the entry holds %r" % (idx, i, o["prev"], d[inner]), "tie": True})
             if o["added"] not in ("!", "~"):
                 # exactly one new entry, the old ones untouched and in their order (WHERE the new one goes is not the property's business)
                 got_ = parse_entries(unhx(o["added"]))
